@@ -120,7 +120,7 @@ def small_ops():
     return [dict(kind='ipv4', nlri=[p1], attr=a), dict(kind='ipv4', nlri=[p1], attr=b), dict(kind='ipv4', nlri=[p2], attr=a),
             dict(kind='ipv4', withdraw=[p1]), dict(kind='ipv4', withdraw=[p2]), dict(kind='ipv4', nlri=[p1, p2], attr=a),
             dict(kind='ipv4', nlri=[p2], attr=b, withdraw=[p1]), dict(kind='ipv4', nlri=[p1], attr=b, withdraw=[p1]),
-            dict(kind='DROP'), dict(kind='DROP', how='peer-notification')]
+            dict(kind='ipv4', nlri=[p1], attr={}), dict(kind='DROP'), dict(kind='DROP', how='peer-notification')]
 
 
 def random_op(rng):
@@ -132,7 +132,8 @@ def random_op(rng):
         x = rng.random()
         nl = rng.sample(PFX, rng.choice([1, 1, 2, 3]))
         if x < 0.55:
-            op.update(nlri=nl, attr=rng.choice(ATTRS))
+            # now and then prefixes announced without any path attribute (a peer can send that; the REST side refuses it)
+            op.update(nlri=nl, attr=rng.choice(ATTRS) if rng.random() < 0.85 else {})
         elif x < 0.85:
             op.update(withdraw=nl)
         elif x < 0.95:
@@ -243,7 +244,8 @@ class Runner(object):
                 self.bad('rib-differs', f2, 'after %s the %s table is %s, the model %s' % (
                     json.dumps(gen.norm(op))[:200], 'Adj-RIB-In' if self.side == 'recv' else 'Adj-RIB-Out', json.dumps(got)[:300], json.dumps(gen.norm(want))[:300]), seq)
             # the REST view of the same table (exact prefixes present in the model)
-            present = sorted(self.model.t['ipv4'])
+            # (a route received without any path attribute is not shown by the adj-rib-in endpoint: outside the statement, the table itself is judged above)
+            present = sorted(p for p in self.model.t['ipv4'] if self.model.t['ipv4'][p] or self.side == 'send')
             if present:
                 code, body = w.rest('POST', 'adj-rib-in' if self.side == 'recv' else 'adj-rib-out', json_body={'data': present})
                 self.stats['rest_rib_queries'] += 1
